@@ -352,7 +352,10 @@ def g_route(rng, wrapped=None):
 PICKLE_EXCS = ["ZeroDivisionError", "ValueError", "SystemExit", "struct.error", "IndexError", "BrokenPipeError", "ConnectionResetError", "EBADF", "closed_socket", "TimeoutError"]
 
 
-def g_contain(rng, force_pickle_exc=None, chain=None):
+SEND_LIMIT = 2000000
+
+
+def g_contain(rng, force_pickle_exc=None, chain=None, too_large=False):
     """C04: task-level failures among good tasks, incl. a full call queue."""
     kind = "reusable" if rng.random() < 0.4 else "plain"
     mw = rng.randint(1, 4)
@@ -383,6 +386,11 @@ def g_contain(rng, force_pickle_exc=None, chain=None):
         # more unsendable tasks in a row than the call queue has slots: a leaked slot would exhaust it
         slots = (2 * mw + 1) if kind == "plain" else 33
         bads += [t_bad_arg_pickle(rng) for _ in range(slots + 3)]
+    if too_large:
+        # tasks that pickle fine and fail in send_bytes (config send_limit): more of them than the call queue has slots
+        slots = (2 * mw + 1) if kind == "plain" else 33
+        n_tl = rng.choice([1, 2, slots, slots + 2]) if kind == "plain" else rng.choice([1, 3, 6])
+        bads += [{"k": "ok", "x": 3, "arg": ["too_large", SEND_LIMIT + rng.randint(1000, 400000)]} for _ in range(n_tl)]
     if force_pickle_exc:
         for _ in range(rng.randint(1, 2)):
             bads.append({"k": "ok", "x": 1, "arg": ["bad_pickle", force_pickle_exc]})
@@ -406,7 +414,7 @@ def g_contain(rng, force_pickle_exc=None, chain=None):
     if rng.random() < 0.5:
         ops.append({"op": "shutdown", "ex": "e", "wait": True})
     prog = {"threads": [ops], "end": "return"}
-    return prog, {"gen": "g_contain", "kind": kind, "kw": kw, "flood": flood, "n_bad": len(bads), "chain": bool(chain), "forced_pickle_exc": force_pickle_exc}
+    return prog, {"gen": "g_contain", "kind": kind, "kw": kw, "flood": flood, "n_bad": len(bads), "chain": bool(chain), "forced_pickle_exc": force_pickle_exc, "too_large": bool(too_large)}
 
 
 def g_drain(rng):
